@@ -195,6 +195,8 @@ func (n *Node) typ(plain bool) reflect.Type {
 		return reflect.StructOf(fs)
 	case "real":
 		return realType(n.Real)
+	case "marsh":
+		return marshTypes[n.Real]
 	}
 	panic("bad node kind " + n.K)
 }
@@ -218,6 +220,11 @@ func (n *Node) wellFormed(depth int) bool {
 		if _, ok := realByName[n.Real]; !ok {
 			return false
 		}
+	case "marsh":
+		if _, ok := marshTypes[n.Real]; !ok || len(n.C) < 1 || len(n.C) > 2 {
+			return false
+		}
+		want = len(n.C)
 	default:
 		return false
 	}
@@ -328,6 +335,14 @@ func (b *builder) build(n *Node, path string) reflect.Value {
 			sv.Field(i).Set(b.build(c, fmt.Sprintf("%s.%d", path, i)))
 		}
 		return sv
+	case "marsh":
+		// a struct with a custom confmap.Marshaler; the children are stored in its
+		// `any` fields A and B
+		sv := reflect.New(marshTypes[n.Real]).Elem()
+		for i, c := range n.C {
+			sv.Field(i).Set(b.build(c, fmt.Sprintf("%s.%d", path, i)))
+		}
+		return sv
 	case "real":
 		p := b.cached(path, func() reflect.Value { return reflect.ValueOf(realByName[n.Real].mk()) })
 		b.fillStruct(p.Elem(), n.N, path)
@@ -398,6 +413,7 @@ type shapeInfo struct {
 	arrayOverSecret bool // a non-empty array with a secret slot somewhere below it
 	xmlIfaceText    bool // a field tagged as XML attribute or chardata whose type is not T or *T for a leaf type T
 	ptrUnderMul     bool // a ptr (or real: it holds pointers) below a multi-entry omap
+	marshaler       bool // a struct with a custom confmap.Marshaler (marsh node or the real struct MarshTyped)
 	sig             string
 }
 
@@ -423,12 +439,18 @@ func (n *Node) info() *shapeInfo {
 		case "real":
 			si.real = true
 			sb.WriteString(":" + n.Real)
+			if n.Real == marshTypedName {
+				si.marshaler = true
+			}
 			if underMulti {
 				si.ptrUnderMul = true
 			}
 			if n.N >= 2 {
 				si.multiMap = true // header maps
 			}
+		case "marsh":
+			si.marshaler = true
+			sb.WriteString(":" + n.Real)
 		case "array":
 			if n.N > 0 && slots(n.C[0]) > 0 {
 				si.arrayOverSecret = true
@@ -515,7 +537,7 @@ func genNode(t *rapid.T, depth int, noPtr bool) *Node {
 		kinds = []string{"opaque"} // the bare value is 1 of 11 root kinds; the sweep covers it densely
 	}
 	if depth < 4 {
-		kinds = append(kinds, "slice", "array", "map", "omap", "struct", "struct", "iface")
+		kinds = append(kinds, "slice", "array", "map", "omap", "struct", "struct", "iface", "marsh", "marsh")
 		if !noPtr {
 			kinds = append(kinds, "ptr", "ptr", "real")
 		}
@@ -531,6 +553,8 @@ func genNode(t *rapid.T, depth int, noPtr bool) *Node {
 	case "omap":
 		n := rapid.IntRange(0, 3).Draw(t, "n")
 		return wrap(k, n, genNode(t, depth+1, noPtr || n >= 2))
+	case "marsh":
+		return genMarsh(t, func() *Node { return genNode(t, depth+1, noPtr) })
 	case "struct":
 		nf := rapid.IntRange(1, 4).Draw(t, "fields")
 		n := &Node{K: "struct"}
